@@ -344,6 +344,7 @@ class NMI(MI):
             num_bins=num_bins,
             num_samples=num_samples,
             sample_ratio=sample_ratio,
+            normalized=True,
         )
 
     def extra_repr(self) -> str:
